@@ -20,7 +20,8 @@ import (
 // This eliminates global state and allows multiple Gate instances in the same process.
 type StrategyManager struct {
 	// Shared random source for all random operations
-	rng *rand.Rand
+	rngMu sync.Mutex // rand.Rand is not safe for concurrent use
+	rng   *rand.Rand
 
 	// Round-robin state per route host
 	roundRobinIndexes *sync.Map // map[string]int
@@ -168,7 +169,9 @@ func (sm *StrategyManager) randomNextBackend(log logr.Logger, backends []string)
 	}
 
 	// Simple random selection - let tryBackends handle health checking via actual dials
+	sm.rngMu.Lock()
 	randIndex := sm.rng.Intn(len(backends))
+	sm.rngMu.Unlock()
 	backend := backends[randIndex]
 
 	return backend, log, true
